@@ -85,9 +85,12 @@ func forEachRecs(idx index.Index) ([]refcar.IndexRecord, bool, error) {
 		if err != nil {
 			return err
 		}
-		_, n2, err := refcar.Uvarint(mh[n:])
+		l, n2, err := refcar.Uvarint(mh[n:])
 		if err != nil {
 			return err
+		}
+		if l != uint64(len(mh)-n-n2) {
+			return fmt.Errorf("ForEach yields a malformed multihash %x: declared digest length %d, %d bytes follow", []byte(mh), l, len(mh)-n-n2)
 		}
 		got = append(got, refcar.IndexRecord{Code: code, Digest: append([]byte{}, mh[n+n2:]...), Offset: off})
 		return nil
@@ -369,6 +372,17 @@ func c11Session(t *mon.T, d c11Desc) {
 	if err != nil {
 		t.Violatef("session/GenerateIndex/error", "GenerateIndex over the finished payload: %v", err)
 		return
+	}
+	// the same index must come out when the WHOLE container is given instead of its payload
+	if whole, err := carv2.GenerateIndex(bytes.NewReader(file), carv2.UseIndexCodec(codec), carv2.StoreIdentityCIDs(cfg.StoreID)); err != nil {
+		t.Violatef("session/GenerateIndex(whole file)/error", "GenerateIndex over the finished file: %v", err)
+	} else {
+		var wb, pb bytes.Buffer
+		_, _ = index.WriteTo(whole, &wb)
+		_, _ = index.WriteTo(regen, &pb)
+		if !bytes.Equal(wb.Bytes(), pb.Bytes()) {
+			t.Violatef("session/regenerate/whole-file-vs-payload-differ", "the index regenerated from the whole CARv2 differs from the one regenerated from its payload at byte %d", lab.FirstDiff(wb.Bytes(), pb.Bytes()))
+		}
 	}
 	var rb bytes.Buffer
 	if _, err := index.WriteTo(regen, &rb); err != nil {
